@@ -10,7 +10,7 @@
 (* sessions and exports them) and by the judge (Trace_Codec: events        *)
 (* recorded from the real library must be explained by these actions).     *)
 (***************************************************************************)
-EXTENDS Values, OER
+EXTENDS Values, XER
 
 CONSTANTS Mod,           \* the module under test (raw, as written)
           ByteExact      \* TRUE: encoders must produce the reference octets (C02)
@@ -24,6 +24,8 @@ Syntaxes == {"DER", "UPER", "OER", "CXER", "BXER"}
 \* accounting and canonicity relations still constrain it.
 Opaque(s) == s \in {"CXER", "BXER"}
 OpaqueWire == <<-2>>
+\* reference XER text (an input for the decoders, not an expectation on the encoder's octets)
+XerRef(T, v) == XER(Env, T.n, T, v)
 Enc(s, T, v) == CASE s = "DER" -> DER(Env, T, v)
                   [] s = "UPER" -> UPER(Env, T, v)
                   [] s = "OER" -> OER(Env, T, v)
